@@ -5,6 +5,7 @@ import JobShopModel.Views
 import JobShopModel.Features
 import JobShopModel.Generator
 import JobShopModel.Viz
+import JobShopModel.Env
 /-!
 # Line-protocol driver for the executable model
 
@@ -423,6 +424,8 @@ def parseBuilder : String → Option Builder
 structure DW where
   w : World
   fw : FWorld
+  env : Option Env := none
+  menv : Option MultiEnv := none
 
 def emptyDW : DW := { w := emptyWorld, fw := FWorld.init { I := [] } }
 
@@ -472,6 +475,40 @@ def fworldSnapshot (w : FWorld) : String :=
     | some o => fmtFObs w.cfg.I id o
     | none => ""
   s!"subs {fmtNats w.subs} || " ++ " || ".intercalate obs
+
+def fmtEObs (o : EObs) : String :=
+  let rm := " ".intercalate (o.removed.map fun b => if b then "1" else "0")
+  let ei := " ".intercalate (o.edgeIndex.map fun uv => s!"{uv.1}>{uv.2}")
+  let fs := " ".intercalate (o.feats.map fun (ft, cs) =>
+    ftName ft ++ "=" ++ ";".intercalate (cs.map fun c => ",".intercalate (c.map toString)))
+  s!"rm {rm} | ei {ei} | {fs}"
+
+def fmtSpace (sp : Space) : String :=
+  s!"space {sp.nJobs} {sp.nMachines} {sp.nNodes} {sp.nEdges} " ++
+    " ".intercalate (((sp.feats.map fun (ft, r, c) => s!"{ftName ft}={r}x{c}").toArray.qsort (· < ·)).toList)
+
+def fmtStepOut (I : Instance) : StepOut → String
+  | .raised => "raise"
+  | .ok obs r d t av => s!"{fmtEObs obs} || r {r} d {d} t {t} av {lst (fmtRefs I av)}"
+
+def parseReward : String → Option FKind
+  | "makespan" => some .makespanReward
+  | "idle" => some .idleReward
+  | _ => none
+
+/-- `<builder> <rm> <rj> <reward> <pad> ; kind fts ; kind fts …` -/
+def parseEnvCfg (ts : List String) : Option EnvCfg :=
+  match splitOnTok ts ";" with
+  | [b, rm, rj, rw, pad] :: feats =>
+    match parseBuilder b, parseReward rw with
+    | some bb, some r =>
+      let fs := feats.mapM fun f => match f with
+        | [k, fts] => (match parseFKind k, parseFts fts with | some kk, some ff => some (kk, ff) | _, _ => none)
+        | _ => none
+      fs.map fun fs => { builder := bb, feats := fs, reward := r, rmMach := rm == "1", rmJob := rj == "1",
+                         usePadding := pad == "1" }
+    | _, _ => none
+  | _ => none
 
 def fmtBars (bs : List Bar) : String :=
   lst (" ".intercalate (bs.map fun b => s!"{b.y}:{b.x}:{b.width}:{b.job}"))
@@ -524,6 +561,56 @@ def stepAll (d : DW) (line : String) : DW × String :=
     | some bb => (d, fmtGraph (build bb d.w.cfg.I))
     | none => (d, "bad-op")
   | ["solved"] => (d, fmtGraph (buildSolved d.w.cfg.I d.w.s))
+  | "env" :: rest =>
+    (match parseEnvCfg rest with
+     | none => (d, "bad-op")
+     | some ec => match Env.make d.w.cfg ec with
+       | none => ({ d with env := none }, "raise")
+       | some e => ({ d with env := some e }, fmtSpace e.space))
+  | ["eobs"] => (match d.env with
+     | some e => (d, match e.observation with | some o => fmtEObs o | none => "raise")
+     | none => (d, "bad-op"))
+  | ["ereset"] => (match d.env with
+     | some e => let (e', o) := e.reset; ({ d with env := some e' }, match o with | some o => fmtEObs o | none => "raise")
+     | none => (d, "bad-op"))
+  | ["estep", j, m] => (match d.env, j.toNat?, m.toInt? with
+     | some e, some j, some m => let (e', o) := e.step j m; ({ d with env := some e' }, fmtStepOut e'.w.cfg.I o)
+     | _, _, _ => (d, "bad-op"))
+  | ["eauto", k] => (match d.env, k.toNat? with
+     | some e, some k =>
+       let acts := e.legalActions
+       if acts.isEmpty then (d, "no-legal-action") else
+       let (j, m) := acts.getD (k % acts.length) (0, 0)
+       let (e', o) := e.step j m
+       ({ d with env := some e' }, s!"act {j} {m} {fmtStepOut e'.w.cfg.I o}")
+     | _, _ => (d, "bad-op"))
+  | ["mauto", k] => (match d.menv, k.toNat? with
+     | some mv, some k =>
+       let acts := mv.env.legalActions
+       if acts.isEmpty then (d, "no-legal-action") else
+       let (j, m) := acts.getD (k % acts.length) (0, 0)
+       let (m', o) := mv.step j m
+       ({ d with menv := some m' }, s!"act {j} {m} {fmtStepOut m'.env.w.cfg.I o}")
+     | _, _ => (d, "bad-op"))
+  | "menv" :: rest =>
+    (match splitOnTok rest ";" with
+     | ps :: more =>
+       (match ints? ps, parseEnvCfg (" ; ".intercalate (more.dropLast.map (" ".intercalate ·)) |> toks), (more.getLast?.bind nats?) with
+        | some [j1, j2, m1, m2, d1, d2, al, rc, k1, k2], some ec, some draws =>
+          let p : GenParams := ⟨(j1.toNat, j2.toNat), (m1.toNat, m2.toNat), (d1, d2), al != 0, rc != 0, (k1.toNat, k2.toNat)⟩
+          (match MultiEnv.make p ec d.w.cfg.F draws with
+           | none => ({ d with menv := none }, "raise")
+           | some m => ({ d with menv := some m }, fmtSpace m.space))
+        | _, _, _ => (d, "bad-op"))
+     | _ => (d, "bad-op"))
+  | ["mreset"] => (match d.menv with
+     | some m => let (m', o) := m.reset
+                 ({ d with menv := some m' }, match o with
+                   | some o => s!"{fmtInstance m'.env.w.cfg.I} || {fmtEObs o}" | none => "raise")
+     | none => (d, "bad-op"))
+  | ["mstep", j, mm] => (match d.menv, j.toNat?, mm.toInt? with
+     | some m, some j, some mm => let (m', o) := m.step j mm; ({ d with menv := some m' }, fmtStepOut m'.env.w.cfg.I o)
+     | _, _, _ => (d, "bad-op"))
   | ["bars"] => (d, fmtBars (bars d.w.s) ++ " ; legend " ++ lst (fmtNats (legendJobs d.w.s)))
   | ["ticks", x, n] =>
     let xlim : Option Nat := if x == "-" then some (makespan d.w.s).toNat else x.toNat?
